@@ -99,7 +99,9 @@ CApply(st, e, n) ==
          LET i == CHOOSE j \in 1..Len(st.sends) : st.sends[j].v = e.v /\ st.sends[j].t = e.t /\ ~st.sends[j].ended
              b == st.sends[i].began
          IN CR([st EXCEPT !.sends[i].ended = TRUE, !.sends[i].res = e.res],
-               CB(e.res /\ st.gdropE # 0 /\ b > st.gdropE, "C13", "send returned true after the guard was dropped")
+               \* (send decides under the buffer lock, and the guard closes the channel under the same lock: a send that
+               \*  is told `true` has left that lock before the guard's drop could complete)
+               CB(e.res /\ st.gdropE # 0, "C13", "send returned true after the guard was dropped")
                \cup CB(~e.res /\ st.gdropB = 0, "C13", "send returned false although the guard was not dropped"))
     [] e.e = "isclosed_begin" ->
          CR([st EXCEPT !.iscB = IF e.t \in DOMAIN @ THEN [@ EXCEPT ![e.t] = n] ELSE @ @@ (e.t :> n)], {})
